@@ -950,7 +950,12 @@ package template
 //@   ensures wfout: WF(c) ==> WF(r)
 //@   ensures editkeys: old(EDITKEYS(e)) && EDITMAPSDISTINCT(e) ==> EDITKEYS(e)
 //@   ensures onlymaps: onlyobjects("map[int]opaque#dom map[int]opaque#val", e.actionNodeEdits)
+//@   ensures predefonlylast: len(n.Pipe.Decl) == 0 && r.state != stateError ==> forall(k, 0, len(n.Pipe.Cmds) - 1, !PREDEFAT(n.Pipe, k))
+//@   ensures htmlunquoted: len(n.Pipe.Decl) == 0 && r.state != stateError && len(n.Pipe.Cmds) > 0 && nudgest(c.state) == stateAttr && nudgedl(c.state, c.delim) == delimSpaceOrTagEnd ==> !(dyntypeis(LASTARG0(n.Pipe), "parse_IdentifierNode") && LASTID(n.Pipe) == "html")
 //@   demonstrates C02-url-split-over-actions context_forgets_dynamic_prefix: len(n.Pipe.Decl) == 0 && r.state != stateError ==> seqeq(r.attr.value, c.attr.value) && r.attr.ambiguousValue == c.attr.ambiguousValue
+//@   loop 1
+//@     invariant forall(k, 0, pos, k < len(n.Pipe.Cmds) - 1 ==> !PREDEFAT(n.Pipe, k))
+//@     invariant forall(k, 0, pos, c.state == stateAttr && c.delim == delimSpaceOrTagEnd ==> !(dyntypeis(at(at(n.Pipe.Cmds, k).Args, 0), "parse_IdentifierNode") && asref(at(at(n.Pipe.Cmds, k).Args, 0), "parse_IdentifierNode").Ident == "html"))
 
 //@ func (e *escaper) editActionNode(n *parse.ActionNode, cmds []string) ()
 //@   serves C01 C02 C06
@@ -1226,13 +1231,13 @@ package template
 //@   ensures frozen: old(t.nameSpace.escaped) ==> !isnil(err) && isnil(r) && nochange()
 
 //@ func normalizeEscFn(e string) (r string)
-//@   serves C02 C03
+//@   serves C01 C02 C03 C06 C08
 //@   ensures html: e == "_sanitizeHTML" || e == "_sanitizeRCDATA" ==> r == "html"
 //@   ensures urlquery: e == "_queryEscapeURL" || e == "_normalizeURL" ==> r == "urlquery"
 //@   ensures other: e != "_sanitizeHTML" && e != "_sanitizeRCDATA" && e != "_queryEscapeURL" && e != "_normalizeURL" ==> sameview(r, e)
 
 //@ func escFnsEq(a, b string) (r bool)
-//@   serves C02 C03
+//@   serves C01 C02 C03 C06 C08
 //@   option uses seq_extensionality
 //@   ensures htmla: a == "html" ==> r == (b == "html" || b == "_sanitizeHTML" || b == "_sanitizeRCDATA")
 //@   ensures urlquerya: a == "urlquery" ==> r == (b == "urlquery" || b == "_queryEscapeURL" || b == "_normalizeURL")
